@@ -88,7 +88,10 @@ func MergeNodes(left, right Node, document *Document) (Node, error) {
 			}
 		}
 
-		r.AddNode(child)
+		// The result must not share nodes with the right side. A later child
+		// that is equal to this one is merged into the node that was added
+		// here, which would otherwise change the right side.
+		r.AddNode(DeepCopy(child, document))
 	next:
 	}
 
